@@ -184,6 +184,7 @@ IMPORT_FILES = {
     'bad2.lay': 'export let y = never_declared;\n',
     'good.lay': ('export class G { init() { self.v = 5; } get() { return self.v; } }\n'
                  'export fn use(g) { return g.get() + g.v; }\n'),
+    'tiny.lay': 'export fn twice(x) { return x * 2; }\n',
     'good2.lay': ('export class H { init() { self.w = 7; } twice() { return self.w * 2; } }\n'
                   'export fn probe(h) { return h.twice() + h.w; }\n'),
 }
@@ -200,6 +201,57 @@ IMPORT_SESSIONS = [
     ('bad twice, good twice', ['import self.bad;', 'import self.bad;', 'import self.good;', 'import self.good as again;',
                                'print(good.use(again.G()));'], ['10']),
 ]
+
+
+def gen_import_sessions(seed, n):
+    """Generated sessions: call and property sites on a class are defined and warmed on early lines, a file module
+    (with fewer or more cache sites than the session so far) is imported in the middle, then new sites with other
+    member names on the same class are defined and used next to the old ones. Every printed value is a constant
+    known here, so the expected transcript needs no model."""
+    import random
+    out = []
+    for j in range(n):
+        r = random.Random('c19imp:%s:%d' % (seed, j))
+        nm = r.randint(2, 5)
+        cls = 'class P { init() { %s } %s }' % (
+            ' '.join('self.f%d = %d;' % (k, 200 + k) for k in range(nm)),
+            ' '.join('m%d() { return %d; }' % (k, 100 + k) for k in range(nm)))
+        lines, want, fns = [cls, 'let p = P();'], [], []
+
+        def new_site():
+            k = r.randrange(nm)
+            name = 's%d' % len(fns)
+            if r.random() < 0.6:
+                lines.append('fn %s(o) { return o.m%d(); }' % (name, k))
+                fns.append((name, 100 + k))
+            else:
+                lines.append('fn %s(o) { return o.f%d; }' % (name, k))
+                fns.append((name, 200 + k))
+
+        def use(k=None):
+            picks = [r.choice(fns) for _ in range(r.randint(1, 3))] if k is None else [fns[k]]
+            lines.append('print(%s);' % ', '.join('%s(p)' % a for a, _ in picks))
+            want.append(' '.join(str(v) for _, v in picks))
+
+        for _ in range(r.randint(1, 4)):
+            new_site()
+            use(len(fns) - 1)
+        for _ in range(r.randint(1, 3)):
+            mod = r.choice(['good', 'good2', 'tiny'])
+            form = r.choice(['import self.%s;', 'import self.%s as mod%d;' % ('%s', len(lines))])
+            lines.append(form % mod)
+            if mod == 'tiny' and r.random() < 0.5:
+                alias = 'tiny' if ' as ' not in lines[-1] else lines[-1].split(' as ')[1].rstrip(';')
+                lines.append('print(%s.twice(4));' % alias)
+                want.append('8')
+            for _ in range(r.randint(1, 4)):
+                new_site()
+                use(len(fns) - 1)
+                if r.random() < 0.7:
+                    use()
+        use()
+        out.append(('generated import session %d' % j, lines, want))
+    return out
 
 
 def import_session(args):
@@ -224,7 +276,9 @@ def import_session(args):
 
 def import_sessions(chk):
     """prompt sessions that import modules which fail to compile before modules that work"""
-    jobs = [(i, label, lines, want) for i, (label, lines, want) in enumerate(IMPORT_SESSIONS)]
+    n_gen = 60 if chk.tier == 'quick' else 1500
+    jobs = [(i, label, lines, want) for i, (label, lines, want) in
+            enumerate(IMPORT_SESSIONS + gen_import_sessions(os.environ.get('VERIF_SEED', '0'), n_gen))]
     for label, bad, session in vlib.pmap(import_session, jobs, chunksize=1):
         if bad is None:
             chk.inconclusive.append('import session did not finish: ' + label)
